@@ -21,7 +21,21 @@ type connObj struct {
 	beh   *Term
 	reply []*Term
 	hdr   []*Term // TCP: the 4-byte length header the peer sends
-	reads int
+	reads   int
+	written []*Term // the bytes the client has written to the connection
+}
+
+// wellFramed: what the peer received is a complete request: over TCP a 4-byte big-endian length followed
+// by exactly that many bytes (RFC 4120 7.2.2); over UDP a non-empty datagram.  A KDC answers nothing else.
+func (c *connObj) wellFramed() *Term {
+	if !c.tcp {
+		return boolTerm(len(c.written) > 0)
+	}
+	if len(c.written) < 4 {
+		return False
+	}
+	l := Concat(Concat(Concat(c.written[0], c.written[1]), c.written[2]), c.written[3])
+	return Eq(l, BVu(uint64(len(c.written)-4), 32))
 }
 
 type endpointState struct {
@@ -120,7 +134,26 @@ func (e *Engine) registerNet() {
 		ns("(*net."+t+").SetDeadline", func(r *Run, fr *Frame, cc *ssa.CallCommon, a []Value) Value { return &IfaceV{} })
 		ns("(*net."+t+").Close", func(r *Run, fr *Frame, cc *ssa.CallCommon, a []Value) Value { return &IfaceV{} })
 		ns("(*net."+t+").Write", func(r *Run, fr *Frame, cc *ssa.CallCommon, a []Value) Value {
+			c := conn(a[0])
+			c.written = append(c.written, sliceBytes(a[1].(*SliceV))...)
 			return TupleV{BVi(int64(a[1].(*SliceV).len), 64), &IfaceV{}}
+		})
+		// net.Buffers.WriteTo(conn): every buffer is written, and the Buffers value is consumed (its elements
+		// are set to nil in the shared backing array and the slice is advanced), as the real code does
+		ns("(*net."+t+").writeBuffers", func(r *Run, fr *Frame, cc *ssa.CallCommon, a []Value) Value {
+			c := conn(a[0])
+			bp := a[1].(*PtrV)
+			bufs := r.load(bp, lbl("net.Buffers")).(*SliceV)
+			total := 0
+			for i := 0; i < bufs.len; i++ {
+				if b, ok := r.force(&elemsOf(bufs)[bufs.off+i]).(*SliceV); ok && b.len > 0 {
+					c.written = append(c.written, sliceBytes(b)...)
+					total += b.len
+				}
+				elemsOf(bufs)[bufs.off+i] = &SliceV{}
+			}
+			r.store(bp, &SliceV{arr: bufs.arr, base: bufs.base, off: bufs.off + bufs.len, len: 0, cap: bufs.cap - bufs.len}, lbl("net.Buffers"))
+			return TupleV{BVi(int64(total), 64), &IfaceV{}}
 		})
 		ns("(*net."+t+").RemoteAddr", func(r *Run, fr *Frame, cc *ssa.CallCommon, a []Value) Value {
 			return &IfaceV{t: addrType, v: BVi(0, 64)}
@@ -133,6 +166,9 @@ func (e *Engine) registerNet() {
 		buf := a[1].(*SliceV)
 		if r.branch(Eq(c.beh, BVu(2, 8))) {
 			return TupleV{BVi(0, 64), r.errNew(fr, "read: connection reset by peer")}
+		}
+		if !r.branch(c.wellFramed()) {
+			return TupleV{BVi(0, 64), r.eofError(fr)} // the peer never saw a complete request: it closes without answering
 		}
 		c.reads++
 		var data []*Term
@@ -163,7 +199,7 @@ func (e *Engine) registerNet() {
 	ns("(*net.UDPConn).ReadFrom", func(r *Run, fr *Frame, cc *ssa.CallCommon, a []Value) Value {
 		c := conn(a[0])
 		buf := a[1].(*SliceV)
-		if r.branch(Not(Eq(c.beh, BVu(0, 8)))) {
+		if r.branch(Not(Eq(c.beh, BVu(0, 8)))) || !r.branch(c.wellFramed()) {
 			return TupleV{BVi(0, 64), &IfaceV{}, r.errNew(fr, "read udp: connection refused / i/o timeout")}
 		}
 		for i := range c.reply {
